@@ -27,13 +27,22 @@
 (* variant whose failure exit forgets the data socket (must be rejected: a failure at the  *)
 (* LAST step - runtime info cut on the control connection of a REAL server, "rinfo*" -     *)
 (* then leaves the persistent backend behind).                                             *)
+(* "kill_info": the server is killed exactly when it is about to forward the runtime info   *)
+(* on the control connection.  The code sends the go-ahead to the backend AFTER that frame;  *)
+(* GoFirst = TRUE sends it before (must be rejected: the backend then runs its target and    *)
+(* keeps the sockets open, the constructor blocks as long as the target runs).               *)
+(* "bk_baseexc": unpickling the payload in the backend raises a BaseException that is not an *)
+(* Exception (the target's module calls sys.exit() when imported there).  Without the fix    *)
+(* "basereport" _run_backend unwinds past both `except Exception` clauses without reporting  *)
+(* its identity while its non-daemon control thread keeps the process alive: the server      *)
+(* (and with it the client's constructor) waits forever.                                     *)
 (* LateClose = TRUE: the backend closes its inherited copy of the server's end of the      *)
 (* start-up pipe only after the go-ahead (must be rejected: a server that dies between     *)
 (* "backend started" and "go-ahead sent" then leaves an orphan blocked in recv() that      *)
 (* keeps the client's sockets open - the constructor never returns).                       *)
 EXTENDS Naturals, Sequences, FiniteSets, TLC, ClientStartProps
 
-CONSTANTS Fix, Scenarios, LateClose, LeakData
+CONSTANTS Fix, Scenarios, LateClose, LeakData, GoFirst
 
 VARIABLES scn,      \* [kind, step, how, pers ("F" one-shot | "T" persistent | "L" one-shot, never-ending target)]
           dsock,    \* the client's data socket: "none" "open" "closed"
@@ -60,7 +69,7 @@ St  == scn.step        \* "healthy" "refuse_data" "unknown_ctx" "hdr" "self" "ad
                        \* "kill_hdr" "kill_self" "kill_addr" "kill_spawn" "kill_window" | process kind: "healthy" "exit_early"
 Ends == {"fin", "rst"}
 Hows == IF scn.how \in Ends THEN {scn.how} ELSE Ends      \* a killed server's sockets end with FIN or RST (kernel's choice)
-IsKill == St \in {"kill_hdr", "kill_self", "kill_addr", "kill_spawn", "kill_window"}
+IsKill == St \in {"kill_hdr", "kill_self", "kill_addr", "kill_spawn", "kill_window", "kill_info"}
 SrvDead == IsKill /\ sv = "gone"
 IsRInfo == St \in {"rinfo0", "rinfoM", "rinfoL"}       \* real server; the runtime-info frame is cut on the control connection
 
@@ -138,7 +147,9 @@ SStep ==
        [] sv = "accepted" /\ bk = "waitgo" /\ IsRInfo ->     \* the server does everything right; the frame is cut on its way to the client
             \E h \in Hows : /\ info' = (IF St = "rinfo0" THEN "none" ELSE "part") /\ ctrl' = h
                              /\ go' = TRUE /\ sv' = "sentInfo" /\ UNCHANGED <<dconn, addr, bk, bkp>>
-       [] sv = "accepted" /\ bk = "waitgo" /\ ~IsRInfo /\ St \notin {"kill_spawn", "kill_window", "info0", "infoM", "infoL"} ->
+       [] sv = "accepted" /\ bk = "waitgo" /\ St = "kill_info" ->        \* killed at the runtime-info step; the go-ahead follows that frame
+            sv' = "gone" /\ go' = GoFirst /\ UNCHANGED <<dconn, addr, ctrl, info, bk, bkp>>
+       [] sv = "accepted" /\ bk = "waitgo" /\ ~IsRInfo /\ St \notin {"kill_spawn", "kill_window", "kill_info", "info0", "infoM", "infoL"} ->
             \* runtime info received on the start-up pipe: forward it on the control socket, send the go-ahead
             info' = "full" /\ go' = TRUE /\ sv' = "sentInfo" /\ UNCHANGED <<dconn, addr, ctrl, bk, bkp>>
        [] OTHER -> FALSE
@@ -152,7 +163,9 @@ PipeDead == SrvDead /\ ~bkp
 BStep ==
   /\ scn.kind = "remote" /\ St \notin {"info0", "infoM", "infoL"}
   /\ CASE bk = "boot" /\ St # "kill_spawn" -> bk' = "main" /\ bkp' = LateClose /\ UNCHANGED go
-       [] bk = "main" -> (IF PipeDead THEN bk' = "gone" ELSE bk' = "waitgo") /\ UNCHANGED <<bkp, go>>      \* send runtime info (BrokenPipeError -> exits)
+       [] bk = "main" /\ St = "bk_baseexc" /\ "basereport" \notin Fix -> bk' = "mute" /\ UNCHANGED <<bkp, go>>   \* unwound without reporting; kept alive by its control thread
+       [] bk = "main" /\ ~(St = "bk_baseexc" /\ "basereport" \notin Fix) ->
+            (IF PipeDead THEN bk' = "gone" ELSE bk' = "waitgo") /\ UNCHANGED <<bkp, go>>      \* send runtime info (BrokenPipeError -> exits)
        [] bk = "waitgo" /\ go -> bk' = "run" /\ bkp' = FALSE /\ UNCHANGED go
        [] bk = "waitgo" /\ ~go /\ PipeDead -> bk' = "gone" /\ UNCHANGED <<bkp, go>>                        \* EOFError -> result (False, e) -> exits
        [] bk = "run" /\ IsRInfo /\ (scn.pers = "F" \/ (scn.pers = "T" /\ dsock = "closed")) -> bk' = "gone" /\ UNCHANGED <<bkp, go>>
@@ -162,7 +175,7 @@ BStep ==
   /\ UNCHANGED <<scn, regd, dsock, ppc, fpc, evt, err, sv, sent, dconn, addr, ctrl, info, gotInfo, ch>>
 \* the last holder of the data and control sockets is gone: the client sees the end of both connections
 SockEOF ==
-  /\ St = "kill_window" /\ SrvDead /\ bk = "gone" /\ ctrl = "open"
+  /\ St \in {"kill_window", "kill_info"} /\ SrvDead /\ bk = "gone" /\ ctrl = "open"
   /\ \E h \in Hows : ctrl' = h /\ dconn' = h
   /\ UNCHANGED <<scn, regd, dsock, ppc, fpc, evt, err, sv, sent, addr, info, gotInfo, bk, bkp, go, ch>>
 
@@ -175,7 +188,7 @@ Next == PStep \/ FStep \/ SStep \/ BStep \/ SockEOF \/ CStep
 Spec == Init /\ [][Next]_vars /\ WF_vars(PStep) /\ WF_vars(FStep) /\ WF_vars(SStep) /\ WF_vars(BStep) /\ WF_vars(SockEOF) /\ WF_vars(CStep)
 
 Done == ppc \in {"returned", "raised"}
-Orphaned == (SrvDead \/ (IsRInfo /\ ppc = "raised")) /\ bk \in {"boot", "main", "waitgo", "run"}
+Orphaned == (SrvDead \/ (IsRInfo /\ ppc = "raised")) /\ bk \in {"boot", "main", "waitgo", "run", "mute"}
 Settled == ~((SrvDead \/ IsRInfo) /\ ENABLED BStep)
 Rec == [scn |-> scn,
         obs |-> [outcome |-> IF Done THEN ppc ELSE "hung",
